@@ -2130,6 +2130,14 @@ class Mailbox:
         for seq in self.sequences.keys():
             for msg_key in to_delete:
                 self.sequences[seq].discard(msg_key)
+
+        # The folder's .mh_sequences must forget the removed messages too,
+        # otherwise MH tools still see them in `unseen` etc. and a message
+        # later delivered under a freed message number inherits their flags.
+        #
+        async with self.mh_sequences_lock, self.mailbox.lock_folder():
+            self.set_sequences_in_folder(self.sequences)
+
         self.num_recent = len(self.sequences["Recent"])
         await self.commit_to_db()
         self.optional_resync = False
